@@ -1,6 +1,7 @@
 import Setec.Driver.DBDrv
 import Setec.Driver.CryptoDrv
 import Setec.Driver.FsDrv
+import Setec.Driver.HttpDrv
 import Setec.Generated.Facts
 open Setec.Driver
 
@@ -38,6 +39,11 @@ def main (args : List String) : IO UInt32 := do
     let st ← loop stdin cryptoLine {} 1
     printCover st.cover
     IO.println s!"SUMMARY family=crypto steps={st.cases} clause_evals={st.cases} propfail={st.fails} diverge={st.diverges}"
+    return 0
+  | ["http"] =>
+    let st ← loop stdin httpLine {} 1
+    printCover st.cover
+    IO.println s!"SUMMARY family=http steps={st.steps} clause_evals={st.steps * 9} propfail={st.fails} diverge={st.diverges}"
     return 0
   | ["fs"] =>
     let st ← loop stdin fsLine {} 1
